@@ -14,6 +14,10 @@ pub fn run_check(prop: &str, thorough: bool, seed: u64) -> Option<Report> {
             let mut rep = Report::new("C12", tier, seed, "sequences of 4-40 nominate / revoke / accept / admin-only-probe / clock steps by 5 principals (the current admin plus 4 fixed accounts), the clock aligned to 7d-1s / 7d / 7d+1s after the latest nomination; the identical sequence runs against the staking and the treasury contract; non-trivial = a re-nomination, revocation or completed handover AND an acceptance attempt by the nominee exactly at or one second before the earliest time; distinct by step-trace hash");
             rep.assumptions = vec!["staking admin observed through an admin-only probe (FeeWithdraw 0 => authorization error iff not admin) and State.pending_owner; treasury admin through its Config query".into()];
             rep.absorb(crate::props_treasury::check_c12(if thorough { 2_000_000 } else { 30_000 }, seed));
+            // the handover interleaved with every other operation of the staking contract (resume, breaker,
+            // config updates, stakes ...), judged by the same four-field model inside the history engine
+            rep.absorb(run_histories("C12", &props::p_c12(), if thorough { 150_000 } else { 3_000 }, seed, 121, props::nt_c12));
+            rep.assumptions.push("history part: nominate/revoke/accept by admin, former admin, nominee, monitors and users interleaved with all other staking operations; non-trivial = an acceptance attempt by the nominee at the boundary, a re-nomination/revocation/handover, and at least one other admin operation in the same history".into());
             Some(rep)
         }
         "C13" => {
@@ -151,6 +155,7 @@ pub fn replay(prop: &str, file: &str) -> i32 {
             Ok(c) => Some(crate::props_c18::check_mig_case(&c, &mut scratch)),
             Err(_) => serde_json::from_value::<crate::props_c18::TGate>(case_v.clone()).ok().map(|c| crate::props_c18::check_tgate(&c, &mut scratch)),
         },
+        "C19" if case_v.is_string() => serde_json::from_value::<String>(case_v.clone()).ok().map(|c| crate::props_c19::check_subdenom(&c, &mut scratch)),
         "C17" => serde_json::from_value::<crate::props_c17::PageCase>(case_v.clone()).ok().map(|c| crate::props_c17::check_page_case(&c, &mut scratch)),
         "C10" => serde_json::from_value::<crate::props_c10::C10Case>(case_v.clone()).ok().map(|c| crate::props_c10::check_c10_case(&c, &mut scratch)),
         "C14" => serde_json::from_value::<crate::props_config::CfgCase>(case_v.clone()).ok().map(|c| crate::props_config::check_cfg_case(&c, &mut scratch)),
@@ -186,6 +191,7 @@ fn check_c19(thorough: bool, seed: u64) -> Report {
     let p = crate::props_c19::profile();
     let n_hist = if thorough { 50_000 } else { 1_500 };
     rep.absorb(run_histories("C19", &p, n_hist, seed, 19, crate::props_c19::nontrivial));
+    rep.absorb(crate::props_c19::run_subdenoms(if thorough { 200_000 } else { 5_000 }, seed));
     if cfg!(feature = "miniwasm") {
         // running as the sub-process: only the histories of this build
         return rep;
